@@ -129,13 +129,20 @@ def rResSinkReady (c : Dma.Cfg) (s : RState) (i : RIn) : Bool := Fifo.sinkReady 
 def rPush (c : Dma.Cfg) (s : RState) (i : RIn) : Bool := (i.enable && i.sinkValid && rResSinkReady c s i) && i.cmdReady
 def rResValid (c : Dma.Cfg) (s : RState) (i : RIn) : Bool := Fifo.srcValid (resCfg c) s.res (rPush c s i)
 
+/-- every word the port returns is taken by the reader (the native read-data channel cannot be back-pressured: a word that is
+not taken is lost) -/
+def rTaken (c : Dma.Cfg) : RState → List RIn → Bool
+  | _, [] => true
+  | s, i :: is => (!i.rdataValid || (rstep c s i).2.rdataReady) && rTaken c (rstep c s i).1 is
+
 theorem reader_from (c : Dma.Cfg) (hd : 1 ≤ c.depth) (is : List RIn) :
     ∀ s : RState, WF (resCfg c) s.res → WF (dataCfg c) s.fifo → (contents s.fifo).length ≤ (contents s.res).length →
       EnvS c s is →
       contents s.res ++ (rHist c s is).lasts = (rHist c s is).emitted.map (·.2) ++ contents (rRun c s is).res ∧
-      contents s.fifo ++ (rHist c s is).rets = (rHist c s is).emitted.map (·.1) ++ contents (rRun c s is).fifo := by
+      contents s.fifo ++ (rHist c s is).rets = (rHist c s is).emitted.map (·.1) ++ contents (rRun c s is).fifo ∧
+      rTaken c s is = true := by
   induction is with
-  | nil => intro s _ _ _ _; simp [rHist, rRun]
+  | nil => intro s _ _ _ _; simp [rHist, rRun, rTaken]
   | cons i is ih =>
     intro s hwr hwf hlen henv
     obtain ⟨hen, hret, henv'⟩ := henv
@@ -177,17 +184,36 @@ theorem reader_from (c : Dma.Cfg) (hd : 1 ≤ c.depth) (is : List RIn) :
       cases hf : rFValid c s i
       · simp
       · rw [hfr hf]; simp
+    -- no overrun: a returned word finds room in the data FIFO
+    have htk : (!i.rdataValid || (rstep c s i).2.rdataReady) = true := by
+      cases hv : i.rdataValid with
+      | false => rfl
+      | true =>
+        have hl := hret hv
+        have hout : s.res.out = none := hwr.out (by simp [resCfg])
+        have hcapr : (contents s.res).length ≤ c.depth := by
+          have := hwr.cap; simpa [contents, hout, resCfg] using this
+        have hqf : s.fifo.q.length ≤ (contents s.fifo).length := by simp [contents]
+        have e0 : (c.depth == 0) = false := by simpa using (by omega : c.depth ≠ 0)
+        show (!true || Fifo.sinkReady (dataCfg c) s.fifo (rFReady i)) = true
+        simp only [Bool.not_true, Bool.false_or, Fifo.sinkReady, dataCfg, e0, Bool.false_eq_true, if_false]
+        by_cases h1 : c.depth = 1
+        · have : s.fifo.q = [] := List.eq_nil_of_length_eq_zero (by omega)
+          simp [h1, this]
+        · have e1 : (c.depth == 1) = false := by simpa using h1
+          simp only [e1, Bool.false_eq_true, if_false, bne_iff_ne, ne_eq]
+          omega
     rw [hpushr, hpopr] at hcr
     rw [hpopf] at hcf
     have ih' := ih (rstep c s i).1 (by rw [hres]; exact hwr') (by rw [hfifo]; exact hwf') ?_ henv'
     · rw [hres, hfifo, hcr, hcf] at ih'
-      simp only [rHist, rRun]
+      simp only [rHist, rRun, rTaken, htk, Bool.true_and]
       rw [hacc, hrt, hem, hdat, hlast]
       cases he : (rResValid c s i && rFValid c s i && i.srcReady) with
       | false =>
         simp only [he, Bool.false_eq_true, if_false, List.nil_append] at ih' ⊢
-        rw [← ih'.1, ← ih'.2, List.append_assoc, List.append_assoc]
-        exact ⟨rfl, rfl⟩
+        rw [← ih'.1, ← ih'.2.1, List.append_assoc, List.append_assoc]
+        exact ⟨rfl, rfl, ih'.2.2⟩
       | true =>
         simp only [he, if_true] at ih' ⊢
         simp only [Bool.and_eq_true] at he
@@ -207,8 +233,8 @@ theorem reader_from (c : Dma.Cfg) (hd : 1 ≤ c.depth) (is : List RIn) :
             simp only [List.tail_cons, List.head?_cons] at ih' hh1 hh2
             rw [hh1, hh2, hrv]
             simp only [Option.getD_some, List.cons_append, List.nil_append, List.map_cons, Bool.true_and]
-            rw [← ih'.1, ← ih'.2, List.append_assoc, List.append_assoc]
-            exact ⟨rfl, rfl⟩
+            rw [← ih'.1, ← ih'.2.1, List.append_assoc, List.append_assoc]
+            exact ⟨rfl, rfl, ih'.2.2⟩
     · -- the data FIFO never holds more words than there are reservations
       rw [hres, hfifo, hcr, hcf]
       have hpushf : (i.rdataValid && Fifo.sinkReady (dataCfg c) s.fifo (rFReady i)) = true → i.rdataValid = true := by
@@ -238,7 +264,13 @@ theorem reader_stream_in_order (c : Dma.Cfg) (hd : 1 ≤ c.depth) (is : List RIn
     (rHist c {} is).lasts = (rHist c {} is).emitted.map (·.2) ++ contents (rRun c {} is).res ∧
     (rHist c {} is).rets = (rHist c {} is).emitted.map (·.1) ++ contents (rRun c {} is).fifo := by
   have := reader_from c hd is {} (wf_init (resCfg c)) (wf_init (dataCfg c)) (by simp [contents]) henv
-  simpa [contents] using this
+  simpa [contents] using ⟨this.1, this.2.1⟩
+
+/-- **Reader: no returned word is lost, however long the consumer stalls** - every FIFO depth ≥ 1, buffered or not (this lifts the
+`buffered = false` hypothesis of `C12.reader_never_overruns`): whenever the port returns a word, the reader takes it. -/
+theorem reader_never_loses_a_word (c : Dma.Cfg) (hd : 1 ≤ c.depth) (is : List RIn) (henv : EnvS c {} is) :
+    rTaken c {} is = true :=
+  (reader_from c hd is {} (wf_init (resCfg c)) (wf_init (dataCfg c)) (by simp [contents]) henv).2.2
 
 /-! ### the environment hypothesis is decidable on a concrete history, and non-vacuity -/
 def envSB (c : Dma.Cfg) : RState → List RIn → Bool
